@@ -691,6 +691,12 @@ def gen_state(rng, goals, cls, t=None):
     elif gp is not None and k < 0.65:
         r = shape_ref_point(gp)
         s["pos"] = [r[0] + dy(rng, -1, 1, 8), r[1] + dy(rng, -1, 1, 8)]
+        if gp["k"] == "rect" and rng.random() < 0.4:
+            # a point well inside one of the four corner regions of the (rotated) box, or just outside of it there
+            f = rng.choice([0.8, 0.9, 0.95, 1.1])
+            lx, ly = rng.choice([-1, 1]) * f * gp["l"] / 2, rng.choice([-1, 1]) * f * gp["w"] / 2
+            co, si = math.cos(gp["o"]), math.sin(gp["o"])
+            s["pos"] = [gp["c"][0] + co * lx - si * ly, gp["c"][1] + si * lx + co * ly]
     elif gp is not None and k < 0.8:
         r = shape_ref_point(gp)
         s["pos"] = [round(r[0] + rng.uniform(-6, 6), 3), round(r[1] + rng.uniform(-6, 6), 3)]
